@@ -404,7 +404,8 @@ PROPS['C17'] = {
 
 CLOUD_TRUSTED = [
     'observable effects are modelled by two ghost logs (Device::written, Socket::sent) appended by Device::write / Socket::send; the traits are declared in the unit with exactly these contracts',
-    'opaque environment with ASSUMED frames (not typed by Verus: format!, hooks, HashMap iteration, SmallVec): GenericCloud::{add_new_peer, update_peer_info, remove_peer, connect_sock, broadcast_msg} do not write to the interface; remove_peer sends nothing',
+    'frames of GenericCloud::{add_new_peer, update_peer_info, remove_peer, connect_sock} (interface and learning flag untouched; remove_peer sends nothing): shared clause files units/iface/cloud_frame*.ensures, assumed in unit cloud, PROVED on the real bodies in unit peers (under C10: obligations peers::GenericCloud::{add_new_peer, update_peer_info, remove_peer, connect_sock}); send_to the other way round (proved in cloud, assumed in peers)',
+    'opaque environment with ASSUMED frames (not typed by Verus: HashMap iteration, labelled continue): GenericCloud::broadcast_msg does not write to the interface; GenericCloud::connect_to_peers (called by update_peer_info) touches neither the interface nor the learning flag',
     'PeerCrypto::handle_message never reports a handshake datagram as Message(_): assumed in unit cloud, PROVED in unit buffer (obligations PeerCrypto::handle_message / handle_init_message, with InitState::handle_init as environment)',
     'HashMap<SocketAddr,_> through the vstd model (obeys_key_model::<SocketAddr>, builds_valid_hashers as axioms); HashMap::get_mut contract written in the unit',
     'R4: GenericCloud/PeerData pruned to the fields the dispatch functions use; R1: self.config.call_hook(..) statement and log macros dropped; R5: NodeInfo::decode(Cursor::new(..)) replaced by an opaque call',
@@ -413,6 +414,8 @@ PROPS['C10'] = {
     'level': 'proof',
     'level_text': 'Proof (Verus, functions verbatim, environment opaque) of the isolation frame conditions: a payload received from a peer causes no datagram to leave the node (no relaying) and at most one interface write, byte-identical to the payload; only the DATA arm of handle_message writes to the interface; datagrams from addresses that are neither peers nor in a handshake never reach the interface, and if they are not handshake messages change nothing but counters; frames read from the own interface are never written back to it; send_msg sends nothing to a non-peer and at most one datagram, to the selected peer. The mode table deciding whether unknown destinations are flooded and whether traffic teaches next hops is a Kani block (all mode x device combinations). NOT decided by contracts: exactly-once delivery to every selected peer (broadcast loop over a HashMap), byte-identity across the AEAD, one peer entry per node (connect_to_peers: labelled loops) - searched on every run by the bounded stand-ins native/node_isolation.rs (every mode x device type, conservation per frame) and native/connect_peers.rs (labelled bounded).',
     'verus': [{'unit': 'cloud'},
+              # the frames unit cloud assumes for the peer-management functions, proved on their real bodies
+              {'unit': 'peers', 'fns': ['GenericCloud::(add_new_peer|update_peer_info|remove_peer|connect_sock)', 'canary_.*']},
               # which peer is "selected" for a frame: the learned / claimed next hop (last writer wins, longest prefix)
               {'unit': 'table', 'fns': ['ClaimTable::cache', 'ClaimTable::lookup']}],
     # who is selected also depends on the two mode flags (flood unknown destinations? learn from traffic?): the mode table of GenericCloud::new
@@ -420,7 +423,7 @@ PROPS['C10'] = {
         'files': {'src/cloud.rs': ['kani/cloudblocks.rs.in']},
         'harnesses': [K(CLB, 'mode_table_matches_documentation', 'GenericCloud::new mode block: unknown destinations are flooded iff hub, switch or normal/tap; learning iff switch or normal/tap; router (and normal/tun) neither floods nor learns', fns=['cloud::GenericCloud::new (block: mode table)'])],
     },
-    'native_search': {r'table::.*': [TABLE_MODEL, ISO_DRV], r'cloud::.*': ISO_DRV, r'kani::cloudblocks::.*': ISO_DRV},
+    'native_search': {r'table::.*': [TABLE_MODEL, ISO_DRV], r'cloud::.*': ISO_DRV, r'peers::.*': ISO_DRV, r'kani::cloudblocks::.*': ISO_DRV},
     'trusted': CLOUD_TRUSTED + TABLE_TRUSTED,
     'not_decided': [
         'exactly-once delivery to every selected peer and to no other (GenericCloud::broadcast_msg iterates a HashMap: no iterator spec in this Verus)',
@@ -460,9 +463,9 @@ OWN_DRV = {'file': 'native/own_addresses.rs', 'attach': 'src/tests/common.rs', '
 SELF_DRV = {'file': 'native/self_connect.rs', 'attach': 'src/crypto/init.rs', 'test': 'a_node_recognises_itself_under_any_salt'}
 PROPS['C14'] = {
     'level': 'proof',
-    'level_text': 'PARTIAL - only the SAFETY half ("a node never ends up with itself as a peer ... addresses that peers list under the node\'s own identity are adopted as its own and not dialled"), as contracts on the real code (Verus): InitState::new advertises salt || SHA-256(salt || node id)[..16] (block), InitState::check_salted_node_id_hash answers exactly "is this the salted hash of my node id", and the theorem that every handshake object of a node recognises the hash of every other handshake object of the same node, whatever salts they drew - so a node that reaches itself through an address it does not know to be its own refuses the handshake; the equal-hash disjunct of the "Connected to self" test (Kani block); GenericCloud::connect_sock never dials an address the node knows to be its own (nor a peer, nor one with a pending handshake); the statements of connect_to_peers that adopt the addresses listed under the own node id (block). SHA-256 is an uninterpreted function. NOT decided by contracts: the first sentence of the property (a connected bootstrap graph becomes a full mesh within a bounded number of exchange intervals, NAT traversal) - liveness over multi-node histories; it is searched on every run by the bounded stand-in native/mesh_formation.rs (2-5 nodes, reliable delivery, no NAT), labelled bounded. The call site in connect_to_peers (labelled loops, HashMap iteration) is outside Verus and searched by native/connect_peers.rs.',
+    'level_text': 'PARTIAL - only the SAFETY half ("a node never ends up with itself as a peer ... addresses that peers list under the node\'s own identity are adopted as its own and not dialled"), as contracts on the real code (Verus): InitState::new advertises salt || SHA-256(salt || node id)[..16] (block), InitState::check_salted_node_id_hash answers exactly "is this the salted hash of my node id", and the theorem that every handshake object of a node recognises the hash of every other handshake object of the same node, whatever salts they drew - so a node that reaches itself through an address it does not know to be its own refuses the handshake; the equal-hash disjunct of the "Connected to self" test (Kani block); GenericCloud::connect_sock never dials an address the node knows to be its own (nor a peer, nor one with a pending handshake); the statements of connect_to_peers that adopt the addresses listed under the own node id (block). SHA-256 is an uninterpreted function. NOT decided by contracts: the first sentence of the property (a connected bootstrap graph becomes a full mesh within a bounded number of exchange intervals, NAT traversal) - liveness over multi-node histories; it is searched on every run by the bounded stand-in native/mesh_formation.rs (2-5 nodes, reliable delivery, no NAT), labelled bounded. The call site in connect_to_peers (labelled loops, HashMap iteration) is outside Verus and searched by native/connect_peers.rs. One mechanism of the NAT clause is under contract: GenericCloud::update_peer_info keeps the address a peer is seen at among the first 7 addresses of its entry (what the peer-list encoder keeps per family); native/connect_peers.rs searches the end-to-end statement (the peer list a node sends lists each peer with the address it sees it at, 0..11 advertised addresses; bounded).',
     'verus': [{'unit': 'selfid'},
-              {'unit': 'peers', 'fns': ['GenericCloud::connect_sock', 'GenericCloud::adopt_own_addresses_block', 'canary_.*']},
+              {'unit': 'peers', 'fns': ['GenericCloud::connect_sock', 'GenericCloud::adopt_own_addresses_block', 'GenericCloud::update_peer_info', 'canary_.*']},
               # the call site: in EVERY stage a message whose hash is the own one, or that the self-recognition test accepts, never
               # completes a handshake (InitState::handle_init, whole function)
               {'unit': 'initstage', 'fns': ['InitState::handle_init', 'InitMsg::(stage|salted_node_id_hash)', 'canary_.*']}],
